@@ -77,7 +77,14 @@ impl Partition {
             self.partition_id,
             self.current_offset
         );
-        if self.segments.is_empty() || start_offset > self.current_offset {
+        if self.segments.is_empty() {
+            return Ok(Vec::new());
+        }
+
+        // A poll that reaches below the earliest retained offset (the older segments have been
+        // deleted) starts from the earliest message still available.
+        let start_offset = std::cmp::max(start_offset, self.segments[0].start_offset);
+        if start_offset > self.current_offset {
             return Ok(Vec::new());
         }
 
